@@ -56,4 +56,185 @@ theorem dec_total (bs : Bits) (h : bs.length = 8) : ∃ s, dec bs = .ok s := by
 
 end ServiceOptions
 
+macro_rules | `(tactic| wf_field) => `(tactic| first
+  | exact Elem.defined_of_dec_mem (by assumption) (by simp [allElems])
+  | exact ServiceOptions.dec_wf _ _ (by assumption)
+  | exact (ServiceOptions.dec_wf _ _ (by assumption)).1
+  | exact (ServiceOptions.dec_wf _ _ (by assumption)).2)
+
+/-! ## CSBK -/
+
+namespace Csbk
+
+/-- `dec (enc p) = init p`: every field of every opcode is read back; the only change is the CRC
+sentinel (`crc = 0` is replaced by the computed CRC) -/
+theorem dec_enc (f : Bits → Nat) (p : Csbk) (h : p.WF) : dec f (enc p) = .ok (init f p) := by
+  obtain ⟨lb, pf, fid, crc, pl⟩ := p
+  obtain ⟨hfid, hcrc, hpl⟩ := h
+  simp only at hfid hcrc hpl
+  have hf := Elem.dec_defined eFeatureSetIDs_total hfid
+  have hfl : fid < 2 ^ 8 := Elem.lt_of_defined eFeatureSetIDs_total hfid
+  cases pl with
+  | bsDwnAct a b =>
+    obtain ⟨ha, hb⟩ := hpl
+    have ho : eCsbkOpcodes.dec 56 = .ok 56 := rfl
+    unfold dec
+    simp only [enc, body, payloadBits, opcode, opBsDwnAct, List.append_assoc]
+    layout_simp [ho, hf, hfl, ha, hb, hcrc]
+  | uuVReq so t s =>
+    obtain ⟨hso, ht, hs⟩ := hpl
+    have ho : eCsbkOpcodes.dec 4 = .ok 4 := rfl
+    have hsl := ServiceOptions.enc_length so
+    unfold dec
+    simp only [enc, body, payloadBits, opcode, opUuVReq, opBsDwnAct, List.append_assoc]
+    layout_simp [ho, hf, hfl, ht, hs, hcrc, hsl, ServiceOptions.dec_enc so hso]
+  | uuAnsRsp so ar t s =>
+    obtain ⟨hso, har, ht, hs⟩ := hpl
+    have ho : eCsbkOpcodes.dec 5 = .ok 5 := rfl
+    have hsl := ServiceOptions.enc_length so
+    have hard := Elem.dec_defined eAnswerResponse_total har
+    have harl : ar < 2 ^ 8 := Elem.lt_of_defined eAnswerResponse_total har
+    unfold dec
+    simp only [enc, body, payloadBits, opcode, opUuAnsRsp, opUuVReq, opBsDwnAct, List.append_assoc]
+    layout_simp [ho, hf, hfl, ht, hs, hcrc, hsl, ServiceOptions.dec_enc so hso, hard, harl]
+  | nackRsp aif st svc rc s t =>
+    obtain ⟨haif, hst, hsvc, hrc, hs, ht⟩ := hpl
+    have ho : eCsbkOpcodes.dec 38 = .ok 38 := rfl
+    have h1 := Elem.dec_defined eAdditionalInformationField_total haif
+    have h1l : aif < 2 ^ 1 := Elem.lt_of_defined eAdditionalInformationField_total haif
+    have h2 := Elem.dec_defined eSourceType_total hst
+    have h2l : st < 2 ^ 1 := Elem.lt_of_defined eSourceType_total hst
+    have h3 := Elem.dec_defined eCsbkOpcodes_total hsvc
+    have h3l : svc < 2 ^ 6 := Elem.lt_of_defined eCsbkOpcodes_total hsvc
+    have h4 := Elem.dec_defined eReasonCode_total hrc
+    have h4l : rc < 2 ^ 8 := Elem.lt_of_defined eReasonCode_total hrc
+    unfold dec
+    simp only [enc, body, payloadBits, opcode, opNackRsp, opUuAnsRsp, opUuVReq, opBsDwnAct, List.append_assoc]
+    layout_simp [ho, hf, hfl, ht, hs, hcrc, h1, h1l, h2, h2l, h3, h3l, h4, h4l]
+  | preamble cf ind btf t s =>
+    obtain ⟨hbtf, ht, hs⟩ := hpl
+    have ho : eCsbkOpcodes.dec 61 = .ok 61 := rfl
+    unfold dec
+    simp only [enc, body, payloadBits, opcode, opPreamble, opNackRsp, opUuAnsRsp, opUuVReq, opBsDwnAct, List.append_assoc]
+    layout_simp [ho, hf, hfl, ht, hs, hcrc, hbtf]
+  | channelTiming age gen lid nl ldi cto sid sdi =>
+    obtain ⟨hage, hgen, hlid, hnl, hldi, hcto, hsid, hsdi⟩ := hpl
+    have ho : eCsbkOpcodes.dec 7 = .ok 7 := rfl
+    have h1 := Elem.dec_defined eDynamicIdentifier_total hldi
+    have h1l : ldi < 2 ^ 2 := Elem.lt_of_defined eDynamicIdentifier_total hldi
+    have h2 := Elem.dec_defined eChannelTimingOpcode_total hcto
+    have h2l : cto < 2 ^ 2 := Elem.lt_of_defined eChannelTimingOpcode_total hcto
+    have h3 := Elem.dec_defined eDynamicIdentifier_total hsdi
+    have h3l : sdi < 2 ^ 2 := Elem.lt_of_defined eDynamicIdentifier_total hsdi
+    unfold dec
+    simp only [enc, body, payloadBits, opcode, opChannelTiming, opPreamble, opNackRsp, opUuAnsRsp, opUuVReq, opBsDwnAct, List.append_assoc]
+    layout_simp [ho, hf, hfl, hcrc, hage, hgen, hlid, hnl, hsid, h1, h1l, h2, h2l, h3, h3l]
+  | hyteraIpscSync raw =>
+    obtain ⟨hlen, hby⟩ := hpl
+    have ho : eCsbkOpcodes.dec 8 = .ok 8 := rfl
+    unfold dec
+    simp only [enc, body, payloadBits, opcode, opHyteraIpscSync, opChannelTiming, opPreamble, opNackRsp, opUuAnsRsp, opUuVReq, opBsDwnAct, List.append_assoc]
+    layout_simp [ho, hf, hfl, hcrc, hlen, bitsToBytes_bytesToBits raw hby]
+  | aloha tsccas sync dvc off act mask sf nrand reg backoff sys tgt =>
+    obtain ⟨hdvc, hmask, hsf, hnrand, hbackoff, hsys, htgt⟩ := hpl
+    have ho : eCsbkOpcodes.dec 25 = .ok 25 := rfl
+    have h1 := Elem.dec_defined eRandomAccessServiceFunction_total hsf
+    have h1l : sf < 2 ^ 2 := Elem.lt_of_defined eRandomAccessServiceFunction_total hsf
+    unfold dec
+    simp only [enc, body, payloadBits, opcode, opAloha, opBroadcast, opHyteraIpscSync, opChannelTiming, opPreamble, opNackRsp, opUuAnsRsp, opUuVReq, opBsDwnAct, List.append_assoc]
+    layout_simp [ho, hf, hfl, hcrc, hdvc, hmask, hnrand, hbackoff, hsys, htgt, h1, h1l]
+  | broadcast at' params reg backoff sys =>
+    obtain ⟨hat, hlen, hbackoff, hsys⟩ := hpl
+    have ho : eCsbkOpcodes.dec 40 = .ok 40 := rfl
+    have h1 := Elem.dec_defined eAnnouncementType_total hat
+    have h1l : at' < 2 ^ 5 := Elem.lt_of_defined eAnnouncementType_total hat
+    unfold dec
+    simp only [enc, body, payloadBits, opcode, opAloha, opBroadcast, opHyteraIpscSync, opChannelTiming, opPreamble, opNackRsp, opUuAnsRsp, opUuVReq, opBsDwnAct, List.append_assoc]
+    layout_simp [ho, hf, hfl, hcrc, hbackoff, hsys, hlen, h1, h1l, slice_split params 14 24 hlen]
+
+theorem payload_length (pl : CsbkPayload) (h : CsbkPayload.WF pl) : (payloadBits pl).length = 64 := by
+  cases pl <;> simp only [CsbkPayload.WF] at h <;>
+    simp (config := { decide := true }) [payloadBits, ServiceOptions.enc_length, bytesToBits_length, slice_length, h]
+
+theorem body_length (p : Csbk) (h : p.WF) : (body p).length = 80 := by
+  simp [body, payload_length _ h.2.2]
+
+theorem enc_length (p : Csbk) (h : p.WF) : (enc p).length = 96 := by
+  simp [enc, body_length p h]
+
+theorem slice_enc (p : Csbk) (h : p.WF) : slice (enc p) 0 80 = body p := by
+  unfold enc; exact slice_append_exact _ _ _ (body_length p h)
+
+theorem init_wf (f : Bits → Nat) (hf : ∀ x, f x < 2 ^ 16) (p : Csbk) (h : p.WF) : (init f p).WF := by
+  unfold init
+  split
+  · exact ⟨h.1, hf _, h.2.2⟩
+  · exact h
+
+theorem wf_of_init (f : Bits → Nat) (p : Csbk) (h : (init f p).WF) : p.WF := by
+  unfold init at h
+  split at h
+  · rename_i h0
+    exact ⟨h.1, by rw [h0]; decide, h.2.2⟩
+  · exact h
+
+/-- the constructor's CRC rule is idempotent (the CRC is computed over bits that do not contain it) -/
+theorem init_idem (f : Bits → Nat) (p : Csbk) (h : p.WF) : init f (init f p) = init f p := by
+  unfold init
+  by_cases hc : p.crc = 0
+  · simp only [hc, ↓reduceIte]
+    split
+    · rename_i h0
+      have hw : ({ p with crc := f (slice (enc p) 0 80) } : Csbk).WF := ⟨h.1, by simp only [h0]; decide, h.2.2⟩
+      rw [slice_enc _ hw, slice_enc _ h]
+      rfl
+    · rfl
+  · simp [hc]
+
+/-- whatever `from_bits` returns is built from in-range field values -/
+theorem dec_wf (f : Bits → Nat) (hf : ∀ x, f x < 2 ^ 16) (bs : Bits) (hl : bs.length = 96) (p : Csbk)
+    (h : dec f bs = .ok p) : p.WF := by
+  unfold dec at h
+  simp only [hl, Nat.lt_irrefl, ↓reduceIte] at h
+  repeat' split at h
+  all_goals cases h
+  all_goals apply init_wf f hf
+  all_goals (unfold WF CsbkPayload.WF; and_intros)
+  all_goals wf_field
+
+/-- … and is a fixed point of the constructor's CRC rule -/
+theorem dec_init (f : Bits → Nat) (hf : ∀ x, f x < 2 ^ 16) (bs : Bits) (hl : bs.length = 96) (p : Csbk)
+    (h : dec f bs = .ok p) : init f p = p := by
+  have hw := dec_wf f hf bs hl p h
+  unfold dec at h
+  simp only [hl, Nat.lt_irrefl, ↓reduceIte] at h
+  repeat' split at h
+  all_goals cases h
+  all_goals exact init_idem f _ (wf_of_init f _ hw)
+
+/-- decoding any 96-bit string that succeeds yields an object whose serialisation decodes to the
+same object: `as_bits` of it is a fixed point of decode-then-encode -/
+theorem fixpoint (f : Bits → Nat) (hf : ∀ x, f x < 2 ^ 16) (bs : Bits) (hl : bs.length = 96) (p : Csbk)
+    (h : dec f bs = .ok p) : dec f (enc p) = .ok p ∧ (enc p).length = 96 := by
+  have hw := dec_wf f hf bs hl p h
+  exact ⟨by rw [dec_enc f p hw, dec_init f hf bs hl p h], enc_length p hw⟩
+
+theorem eCsbkOpcodes_ove : eCsbkOpcodes.onlyValueErrors = true := Elem.onlyValueErrors_of_mem (by simp [allElems])
+
+/-- a 96-bit string is decoded, or raises `ValueError` (undefined opcode / answer response / reason
+code / service type) or `NotImplementedError` (a defined opcode without PDU layout); nothing else -/
+theorem dec_errors (f : Bits → Nat) (bs : Bits) (hl : bs.length = 96) (e : Err)
+    (h : dec f bs = .error e) : e = .valueError ∨ e = .notImplemented := by
+  unfold dec at h
+  simp only [hl, Nat.lt_irrefl, ↓reduceIte] at h
+  repeat' split at h
+  all_goals first
+    | (cases h; done)
+    | (cases h; right; rfl)
+    | (cases h; left; exact Elem.err_valueError_mem (by assumption) (by simp [allElems]))
+    | (cases h; exfalso
+       have := ServiceOptions.dec_total (slice bs 16 8) (by simp [slice_length, hl])
+       simp_all; done)
+
+end Csbk
 end Dmr
